@@ -105,7 +105,11 @@ func peach(fm *Frame, opts peachOpt, f Callable, inputs Inputs) error {
 			return
 		}
 		if workerSema != nil {
-			workerSema.Acquire(ctx, 1)
+			if workerSema.Acquire(ctx, 1) != nil {
+				// Interrupted while waiting for a worker slot: no slot is
+				// held, so don't start a task.
+				return
+			}
 		}
 		wg.Add(1)
 		go func() {
